@@ -585,6 +585,10 @@ const expression_t& expression_t::get(uint32_t i) const
 
 bool expression_t::empty() const { return data == nullptr; }
 
+#ifdef UTAP_VERIF
+size_t expression_t::verif_sub_size() const { return data ? data->sub.size() : 0; }
+#endif
+
 bool expression_t::is_true() const
 {
     return data == nullptr || (get_type().is_integral() && data->kind == CONSTANT && get_value() == 1);
